@@ -46,6 +46,24 @@ func c08Canon(pl ProofList) string {
 	// Compare what they carry, not how it was spelled.
 	var restore []func()
 	for _, p := range pl {
+		// a response of 0 for an attribute index >= 1 contributes R_i^0 = 1: a proof with and without such
+		// an entry is the same proof (only the zero-secret sessions ever contain zero responses)
+		if d, ok := p.(*ProofD); ok && d != nil {
+			for i, r := range d.AResponses {
+				if i != 0 && r != nil && r.Sign() == 0 {
+					i, r, d := i, r, d
+					delete(d.AResponses, i)
+					restore = append(restore, func() { d.AResponses[i] = r })
+				}
+			}
+			for i, v := range d.ADisclosed {
+				if i != 0 && v != nil && v.Sign() == 0 {
+					i, v, d := i, v, d
+					delete(d.ADisclosed, i)
+					restore = append(restore, func() { d.ADisclosed[i] = v })
+				}
+			}
+		}
 		if d, ok := p.(*ProofD); ok && d != nil && d.NonRevocationProof != nil && d.NonRevocationProof.SignedAccumulator != nil {
 			sa := d.NonRevocationProof.SignedAccumulator
 			var t struct{ Msg, Sig []byte }
